@@ -43,12 +43,12 @@ Qed.
 
 Lemma copy_loop ps : forall pre buf,
   List.length buf = (List.length pre + List.length (concat_payload ps))%nat -> firstn (List.length pre) buf = pre ->
-  ofold (fun '(o, payload) (p_2 : Packet) =>
+  ofold (fun '(payload, o) (p_2 : Packet) =>
     if (andb (0 <=? o) (o <=? (Z.of_nat (List.length payload)))) then
       let '(payload, r_1_) := copy_at payload o (Packet_Payload p_2) in
-      let o := (o + r_1_) in Done (o, payload)
-    else Panicked) ps (Z.of_nat (List.length pre), buf) =
-  Done (Z.of_nat (List.length pre + List.length (concat_payload ps)), pre ++ concat_payload ps).
+      let o := (o + r_1_) in Done (payload, o)
+    else Panicked) ps (buf, Z.of_nat (List.length pre)) =
+  Done (pre ++ concat_payload ps, Z.of_nat (List.length pre + List.length (concat_payload ps))).
 Proof.
   induction ps as [|p r IH]; intros pre buf Hlen Hpre.
   - cbn [ofold concat_payload flat_map List.length] in *. rewrite Nat.add_0_r in *. rewrite app_nil_r.
